@@ -265,7 +265,8 @@ def run_job(job):
 # ---- scenario space -------------------------------------------------------------------------------------------------------
 
 # (records, payload bytes): none / far below / around / far beyond the 64 KiB pipe, few large and many small records
-SHAPES = [(0, 0), (1, 50), (5, 100), (40, 1500), (50, 2000), (300, 100), (20, 8000), (6, 30000), (3, 100000)]
+# the last shape: a burst of thousands of small records, far ahead of the parent (which handles them one at a time)
+SHAPES = [(0, 0), (1, 50), (5, 100), (40, 1500), (50, 2000), (300, 100), (20, 8000), (6, 30000), (3, 100000), (2500, 30)]
 KINDS = ('return', 'raise', 'exit0', 'exitN')
 
 
